@@ -1,6 +1,12 @@
 /-
   Property C12 — property theorems only (helper lemmas live next to the model).
-  Stub: nothing claimed yet.
 -/
+import Babylon.RVec.Model
+import Babylon.RVec.Str
+
 namespace Babylon.Properties.C12
+open Babylon.RVec Babylon.Gen.RVec
+
+theorem gen_growth_policy : growInit = 4 ∧ growFactor = 2 ∧ defaultRecreateInterval = 1000 := by decide
+
 end Babylon.Properties.C12
